@@ -30,8 +30,10 @@ import vx  # noqa: E402
 
 REPO = os.environ.get("VERIF_REPO", "/repo")
 GEN_DIR = os.path.join(VERIF, ".gen")
-EVID_DIR = os.path.join(VERIF, "evidence")
-REPLAY_DIR = os.path.join(VERIF, "replays")
+# evidence and replays of runs against a scratch worktree never overwrite those of /repo
+_SCRATCH = os.path.abspath(REPO) != "/repo"
+EVID_DIR = os.path.join(VERIF, ".gen", "evidence_scratch") if _SCRATCH else os.path.join(VERIF, "evidence")
+REPLAY_DIR = os.path.join(VERIF, ".gen", "replays_scratch") if _SCRATCH else os.path.join(VERIF, "replays")
 TEMPLATE = os.path.join(VERIF, "contracts", "toodee.vt")
 PROPMAP = os.path.join(VERIF, "contracts", "properties.json")
 KNOWN = os.path.join(VERIF, "known_findings.txt")
@@ -97,6 +99,8 @@ def fn_verus_name(rec):
     cont = rec["container"]
     if rec.get("free_name"):
         return "toodee_v::" + rec["free_name"]
+    if rec.get("vname"):
+        return "toodee_v::" + rec["vname"]
     base = "toodee_v"
     if mod:
         base += "::" + mod
@@ -499,6 +503,15 @@ def main():
         for sp in syn_problems:
             lost_fail.append({"obligation": "syntactic :: serde :: %s" % sp[:80], "fn": "serde derive / view serialisers", "msg": "assumed serialised form no longer justified",
                               "clause": sp, "origin": None, "rendered": sp})
+
+    if pm.get("syntactic") == "flatten":
+        import flatten_syntax
+        try:
+            for sp in flatten_syntax.check(repo_src):
+                lost_fail.append({"obligation": "syntactic :: flatten :: %s" % sp[:80], "fn": "FlattenExact struct / aliases", "msg": "R8 instantiation no longer matches the generic struct",
+                                  "clause": sp, "origin": None, "rendered": sp})
+        except Exception as e:
+            undecided.append("flatten syntactic check could not run: %s" % e)
 
     # ---- bounded Kani stand-ins
     kani_info = None
